@@ -269,8 +269,29 @@ def flush_placements(case: Dict[str, Any]) -> List[Dict[str, Any]]:
     hist = case["history"]
     first = next(i for i, s in enumerate(hist) if s["s"] == "flush")
     out = []
+    def regs_made(ss):
+        out_ = set()
+        for s_ in ss:
+            if s_.get("into", {}).get("k") == "newreg":
+                out_.add(s_["into"]["h"])
+            for f in ("body", "cleanup"):
+                if isinstance(s_.get(f), list):
+                    out_ |= regs_made(s_[f])
+        return out_
+
+    def regs_used(x):
+        if isinstance(x, dict):
+            return ({x["h"]} if x.get("k") == "reg" else set()) | set().union(*[regs_used(v) for v in x.values()]) if x else set()
+        if isinstance(x, list):
+            return set().union(*[regs_used(v) for v in x]) if x else set()
+        return set()
+
     for pos in range(1, first):
         if hist[pos - 1]["s"] == "array" and hist[pos]["s"] == "array":
+            continue
+        # a register future lives in the subroutine that made it (its M register is recycled at the flush: the
+        # recorded finding of this property, exercised by directed cases): the extra flush must not cut it off
+        if regs_made(hist[:pos]) & regs_used(hist[pos:first]):
             continue
         h2 = hist[:pos] + [{"s": "flush"}] + hist[pos:]
         out.append({"history": h2, "meas": case["meas"]})
